@@ -656,8 +656,12 @@ lzma_index_append(lzma_index *i, const lzma_allocator *allocator,
 	const uint32_t index_list_size_add = lzma_vli_size(unpadded_size)
 			+ lzma_vli_size(uncompressed_size);
 
-	// Check that uncompressed size will not overflow.
-	if (uncompressed_base + uncompressed_size > LZMA_VLI_MAX)
+	// Check that uncompressed size will not overflow. The total of
+	// all Streams is what matters: lzma_index_uncompressed_size() and
+	// the uncompressed offsets given by the iterator are relative to
+	// the beginning of the whole lzma_index.
+	if (s->node.uncompressed_base + uncompressed_base
+			+ uncompressed_size > LZMA_VLI_MAX)
 		return LZMA_DATA_ERROR;
 
 	// Check that the new unpadded sum will not overflow. This is
